@@ -145,6 +145,15 @@ def members(tier):
     for b in (0, 1, 2):
         line.append((f'v=Auto1(a=1,b={b})', {'v': {'__obj__': 'Auto1', 'kwargs': {'a': 1, 'b': b}}}))
         line.append((f'v=Auto2(a=1,c={b + 4})', {'v': {'__obj__': 'Auto2', 'kwargs': {'a': 1, 'c': b + 4}}}))
+    # a parameter object with variadic keyword arguments (stored under the parameter's name): every captured argument matters
+    for opts in ({}, {'min_len': 2}, {'min_len': 3}, {'min_len': 2, 'lower': True}, {'lower': True}, {'min_len': [2]}):
+        line.append((f'v=AutoVar(a=1,**{opts!r})', {'v': {'__obj__': 'AutoVar', 'kwargs': dict({'a': 1}, **opts)}}))
+        line.append((f'v=[AutoVar(a=1,**{opts!r})]', {'v': [{'__obj__': 'AutoVar', 'kwargs': dict({'a': 1}, **opts)}]}))
+    # a parameter object that stores the raw argument privately and a derived form publicly: the raw one counts
+    for cols in (['z', 'a', 'm'], ['a', 'm', 'z'], ['m', 'a', 'z'], ['a', 'm'], [3, 1, 2], [1, 2, 3]):
+        line.append((f'v=AutoBoth({cols!r})', {'v': {'__obj__': 'AutoBoth', 'kwargs': {'cols': cols}}}))
+    for pth in ('a/b', 'A/B', 'a/B'):
+        line.append((f'v=AutoRaw({pth!r})', {'v': {'__obj__': 'AutoRaw', 'kwargs': {'path': pth}}}))
     for v in vals[:60]:
         line.append((f'v=0,w={v!r}', {'v': 0, 'w': v}))
     sep = []
